@@ -18,6 +18,8 @@ def run(ctx):
     cross = ch.coin(1, 4, "cross-restart") or bool(ctx.cfg.get("replay_cross"))
     ctx.profile["cross"] = cross
     c_persist.roundtrip_check(ctx, h, label, cross)
+    if not ctx.violations and ch.coin(1, 3, "continue-on-loaded"):
+        c_persist.continue_on_loaded(ctx, h.to_json(), label)
 
 
 def batch_extra():
